@@ -245,7 +245,7 @@ Proof.
     { intros [<- |Hc]; [discriminate|]. pose proof (I_slab _ _ _ I y Hy) as S.
       unfold free_small in Hc. rewrite (obj_contains c F _ _ y p S O) in Hc. cbn [negb] in Hc.
       rewrite (find_blk_in p (live s) b (I_live_nodup _ _ _ I) Hb Hbp) in Hc.
-      assert (E : (sl_nres y =? 0) = false) by (apply N.eqb_neq; pose proof (so_nres _ _ _ _ S); lia).
+      assert (E : (sl_nres y =? 0) = false) by (apply N.eqb_neq; pose proof (nres_pos c k s I y p b Hy Hb Hbp O); lia).
       rewrite E in Hc.
       assert (E2 : match sl_avail y with [] => false | a :: _ => negb (sl_contains c y a) end = false).
       { destruct (sl_avail y) as [|a r] eqn:Ea; [reflexivity|].
@@ -422,32 +422,30 @@ Qed.
 End StepSh.
 
 (* ---------- whole histories ---------- *)
-Lemma run_sh c : cfg_facts c -> poison c = true -> forall ops k s sh,
-  Inv c k s -> k + N.of_nat (length ops) < 4294967296 -> hist_ok_both c s ops -> live_unpoisoned s sh ->
+Lemma run_sh c : cfg_facts c -> poison c = true -> forall ops s sh,
+  Inv c 0 s -> hist_ok_both c s ops -> live_unpoisoned s sh ->
   live_unpoisoned (run_from c s ops) (sh_fold sh (log_from c s ops)).
 Proof.
-  intros F Hpo. induction ops as [|o r IH]; intros k s sh I Hk [H1 H2] H.
+  intros F Hpo. induction ops as [|o r IH]; intros s sh I [H1 H2] H.
   - cbn. exact H.
   - cbn [hist_ok] in H1, H2. apply andb_prop in H1. apply andb_prop in H2.
     destruct H1 as [P1 P2], H2 as [A1 A2].
-    cbn [length] in Hk. rewrite Nat2N.inj_succ in Hk.
-    destruct (step_inv c F k s I ltac:(lia) o P1 A1) as [I' _].
-    pose proof (step_sh c F Hpo k s I ltac:(lia) sh o P1 A1 H) as H'.
+    destruct (step_inv c F 0 s I ltac:(lia) o P1 A1) as [I' _].
+    pose proof (step_sh c F Hpo 0 s I ltac:(lia) sh o P1 A1 H) as H'.
     cbn [log_from run_from fold_left]. rewrite sh_fold_app.
-    apply (IH (k + 1) (st_of (step c s o)) _ I' ltac:(lia) (conj P2 A2) H').
+    apply (IH (st_of (step c s o)) _ (Inv_any c _ 0 _ I') (conj P2 A2) H').
 Qed.
 
 Theorem C03_poison_live_main :
   forall (c : cfg) (ops : list op),
-    cfg_ok c = true -> poison c = true -> policy_ok c ops -> api_ok c ops -> history_short ops ->
+    cfg_ok c = true -> poison c = true -> policy_ok c ops -> api_ok c ops ->
     forall pre, prefix pre ops ->
     let s := run c pre in
     let sh := sh_fold sh0 (log c pre) in
     forall b x, In b (live s) -> bk_p b <= x -> x < bk_p b + N.max (bk_req b) 1 -> sh x = true.
 Proof.
-  intros c ops Hc Hpo Hp Ha Hs pre (suf & ->) s sh. pose proof (cfg_ok_facts c Hc) as F.
-  unfold policy_ok, api_ok, history_short in *. apply hist_ok_app in Hp. apply hist_ok_app in Ha.
-  rewrite app_length, Nat2N.inj_add in Hs.
-  apply (run_sh c F Hpo pre 0 (init c) sh0 (init_inv c F) ltac:(lia) (conj Hp Ha)).
+  intros c ops Hc Hpo Hp Ha pre (suf & ->) s sh. pose proof (cfg_ok_facts c Hc) as F.
+  unfold policy_ok, api_ok in *. apply hist_ok_app in Hp. apply hist_ok_app in Ha.
+  apply (run_sh c F Hpo pre (init c) sh0 (init_inv c F) (conj Hp Ha)).
   intros b x [].
 Qed.
